@@ -57,6 +57,7 @@ pub struct SlotSpec {
     pub props: Vec<String>,
     pub sig: String,
     pub loops: Vec<(usize, Option<String>, String)>, // ordinal, iter name, clauses
+    pub kloops: Vec<(String, usize, Option<String>, String)>, // kind, ordinal within kind, iter name, clauses
     pub closures: Vec<(usize, String)>,              // ordinal, header replacement
     pub hints: Vec<(String, String)>,                // where, text
     pub substs: Vec<(String, String)>,
@@ -220,9 +221,18 @@ fn run(repo: &str, template: &str, shimdir: &str, logv: &mut Value) -> Result<St
                         // loop N [iter=name]: clauses
                         let (head, body) = rest.split_once(':').ok_or_else(|| Undecided(format!("template line {}: bad loop", tline)))?;
                         let mut hp = head.split_whitespace();
-                        let n: usize = hp.next().and_then(|x| x.parse().ok()).ok_or_else(|| Undecided(format!("template line {}: bad loop ordinal", tline)))?;
+                        let ord = hp.next().ok_or_else(|| Undecided(format!("template line {}: bad loop ordinal", tline)))?;
                         let it = hp.next().and_then(|x| x.strip_prefix("iter=")).map(|x| x.to_string());
-                        s.loops.push((n, it, one_line(body)));
+                        if let Some((kind, n)) = ord.split_once('#') {
+                            let n: usize = n.parse().map_err(|_| Undecided(format!("template line {}: bad loop ordinal", tline)))?;
+                            if !["loop", "for", "while"].contains(&kind) {
+                                bail!("template line {}: loop kind must be loop/for/while", tline);
+                            }
+                            s.kloops.push((kind.to_string(), n, it, one_line(body)));
+                        } else {
+                            let n: usize = ord.parse().map_err(|_| Undecided(format!("template line {}: bad loop ordinal", tline)))?;
+                            s.loops.push((n, it, one_line(body)));
+                        }
                     }
                     "closure" => {
                         let (head, body) = rest.split_once(':').ok_or_else(|| Undecided(format!("template line {}: bad closure", tline)))?;
